@@ -288,11 +288,11 @@ def function_universe(ctx, tier):
     if tier == 'quick':
         order = list(range(len(U3)))
         rnd.shuffle(order)
-        fs = [U3[i] for i in sorted(order[:120])]
+        fs = [U3[i] for i in sorted(order[:200])]
     else:
         fs = list(U3)
     U4 = [p for p in sigs.U(('a', 'b', 'c', 'd'), 4, stars=sigs.STARS2[:1]) if len(p) >= 4]
-    fs += [rnd.choice(U4) for _ in range({'quick': 40, 'thorough': 1500}[tier])]
+    fs += [rnd.choice(U4) for _ in range({'quick': 80, 'thorough': 6000}[tier])]
     return fs
 
 
